@@ -131,6 +131,34 @@ def extract(repo):
         raise ExtractError("on_transaction_end: get_spendable_htlc_indices call not found")
     spendable_fallback = m.group(1) == "unwrap_or_else"
 
+    # handler.rs, arms AddBlock / RemoveBlock / BlockChunk (Model/TrackerHandler.lean): which tracker outcomes are
+    # answered by a reply, which abort the process, and that the tracker entry is persisted only after Ok
+    ha = strip_comments(read(repo, "vls-protocol-signer/src/handler.rs"))
+    def arm(name, nxt):
+        m = re.search(r"Message::%s\(m\) => \{(.*?)Message::%s\(" % (name, nxt), ha, re.S)
+        if not m:
+            raise ExtractError("handler.rs: arm Message::%s not found (or not followed by Message::%s)" % (name, nxt))
+        return m.group(1)
+    a_add, a_rem, a_chunk = arm("AddBlock", "RemoveBlock"), arm("RemoveBlock", "BlockChunk"), arm("BlockChunk", "GetHeartbeat")
+    none_arm = r"None => \{\s*tracker\.abort_streamed_block\(\);\s*return Err\(Status::invalid_argument\("
+    for nm, body in (("AddBlock", a_add), ("RemoveBlock", a_rem)):
+        if not re.search(none_arm, body):
+            raise ExtractError("handler.rs %s: a missing proof is no longer answered by abort_streamed_block + invalid_argument" % nm)
+        if len(re.findall(r"\.update_tracker\(", body)) != 1:
+            raise ExtractError("handler.rs %s: expected exactly one update_tracker call" % nm)
+    i_call, i_ok = a_add.find(".add_block("), a_add.find("Ok(_) => ()")
+    i_orph = a_add.find("Err(TrackerError::OrphanBlock(msg)) =>")
+    i_panic, i_persist = a_add.find('Err(_e) => panic!("add_block")'), a_add.find(".update_tracker(")
+    if not (0 <= i_call < i_ok < i_orph < i_panic < i_persist):
+        raise ExtractError("handler.rs AddBlock: Ok / OrphanBlock reply / panic / update_tracker changed shape or order")
+    if not re.search(r"Err\(TrackerError::OrphanBlock\(msg\)\) => \{\s*return Ok\(Box::new\(msgs::SignerError \{\s*code: msgs::CODE_ORPHAN_BLOCK", a_add):
+        raise ExtractError("handler.rs AddBlock: an orphan block is no longer answered by SignerError{CODE_ORPHAN_BLOCK}")
+    i_rm, i_rp = a_rem.find('tracker.remove_block(proof, prev_headers).expect("remove_block");'), a_rem.find(".update_tracker(")
+    if not (0 <= i_rm < i_rp):
+        raise ExtractError("handler.rs RemoveBlock: `remove_block(..).expect(..)` followed by update_tracker not found")
+    if 'tracker.block_chunk(m.hash, m.offset, &m.content.0).expect("block_chunk");' not in a_chunk or "update_tracker" in a_chunk:
+        raise ExtractError("handler.rs BlockChunk: arm changed shape")
+
     btc_ver, diffchange = _bitcoin_constants(repo)
 
     lean = "namespace VlsModel.Gen.Chain\n"
@@ -156,6 +184,9 @@ def extract(repo):
              "MIN_DEPTH": min_depth, "MAX_CLOSING_DEPTH": max_closing_depth,
              "MAX_COMMITMENT_OUTPUTS": max_commit_outs, "CHANNEL_STUB_PRUNE_BLOCKS": stub_prune,
              "stub_regtest_extra": stub_regtest_extra, "MAX_CHANNELS": max_channels_default,
+             "handler_block_arms": {"AddBlock": "no proof: abort stream + invalid_argument; Ok: persist + reply; OrphanBlock: SignerError reply; other Err: panic",
+                                    "RemoveBlock": "no proof: abort stream + invalid_argument; Ok: persist + reply; any Err: expect -> panic",
+                                    "BlockChunk": "expect -> panic; no persist"},
              "new_channel_guards": "dbid_high_water_mark >= dbid; channels.len() >= policy.max_channels(); slot lookup",
              "required_majority": "(n + 1) / 2",
              "is_done_events": [e for e, _ in lims],
